@@ -511,9 +511,8 @@ def h_c19_int(env, rec, field):
         return
     key = "py:computed:%s:wrong-value" % field
     desc = "%s evaluates to a different value" % expr
-    if misread is not None and EQ(res, misread(a, b)) is True:
-        key = "py:computed:right-operand-parentheses-dropped"
-        desc = "%s is emitted without the parentheses around the right operand and evaluates left-to-right" % expr
+    # (the key must not depend on a coincidence of the concrete replay values: a native run whose operands happen to
+    # make the value equal to a mis-parenthesised reading used to get another key than the symbolic run - a flake)
     env.check("computed.int-expression==mathematical-value", IMPLIES(inr, EQ(res, exact)), key, desc)
 
 
